@@ -44,7 +44,9 @@ func tmFunc(p *Prog, name string) *ssa.Function {
 func init() {
 	register("C12", func(c *Ctx) {
 		// (memo-key) look-aside memos of the consensus packages are keyed by every input of the remembered value (engine/memo.go)
-		memoKeyRule(c, "memo-key", func(pk string) bool { return strings.HasPrefix(pk, "consensus/votecounter") || strings.HasPrefix(pk, "consensus/tendermint") || pk == "consensus" })
+		memoKeyRule(c, "memo-key", func(pk string) bool {
+			return strings.HasPrefix(pk, "consensus/votecounter") || strings.HasPrefix(pk, "consensus/tendermint") || pk == "consensus"
+		})
 		c.needFixture("memo-key")
 		p := c.P
 		c.Explain = "Decides that the implemented Tendermint rules are the paper's rules, on the generic SSA bodies of consensus/tendermint and consensus/votecounter: (rule-guards) at every call of a rule action in stateMachine.process the DNF of conditions that must hold (dominating branches, &&/|| recovered from φ-nodes, boolean helpers inlined) contains each conjunct of the paper's enabling condition; " +
